@@ -16,6 +16,8 @@ def gen_programs(rng, tier):
         dict(tag="pointcloud,empty-blob,image", items=[("P", P[3], pts(P[3], 40)), ("B", b""), ("I", "c", rng.bytes(3), None)]),
         dict(tag="dropped sub-writers", items=[("PD", P[1], pts(P[1], 2)), ("ID", "s", rng.bytes(60), rng.bytes(1)), ("B", rng.bytes(4))]),
         dict(tag="unfinalized", nofin=True, items=[("B", rng.bytes(956)), ("P", P[0], pts(P[0], 2))]),
+        # the second public entry point of the top-level finalize
+        dict(tag="finalize_customized_xml", finx=True, items=[("P", P[1], pts(P[1], 3)), ("B", rng.bytes(200))]),
     ]
     # the section header of the item after the first blob ends on / straddles the page boundary (logical 1020):
     # the writes inside one library call that reach the device only there
@@ -24,7 +26,9 @@ def gen_programs(rng, tier):
     for L, j in sweep:
         progs.append(dict(tag="boundary-%d" % L, items=[("B", rng.bytes(L)), followers[j]()]))
     for _ in range(6 if tier == "quick" else 60):
-        progs.append(dict(tag="random", nofin=rng.chance(1, 8), items=[crash.rand_item(rng, allow_dropped=True) for _ in range(rng.range(1, 3))]))
+        nofin = rng.chance(1, 8)
+        progs.append(dict(tag="random", nofin=nofin, finx=(not nofin and rng.chance(1, 3)),
+                          items=[crash.rand_item(rng, allow_dropped=True) for _ in range(rng.range(1, 3))]))
     return progs
 
 
@@ -40,7 +44,7 @@ def call_names(prog):
 def check_writer(rep, prog, impl, stats, chunks="-", with_model=True, only_k=None):
     """fault at every device operation of one writer program (with the given chunk schedule)"""
     text = crash.prog_text(prog)
-    rdict = dict(kind="fault-writer", items=[crash.item_tok(i) for i in prog["items"]], nofin=bool(prog.get("nofin")), chunks=chunks)
+    rdict = dict(kind="fault-writer", items=[crash.item_tok(i) for i in prog["items"]], nofin=bool(prog.get("nofin")), finx=bool(prog.get("finx")), chunks=chunks)
     ref = crash.parse_cw(core.run_one(impl, crash.cw_line(prog, chunks=chunks, flags=("stop",))))
     if ref["crash"] or any(crash.is_fail_tok(t) for t in ref["outs"]):
         raise core.InfraError("C16 generator produced a program the writer rejects: %s -> %s" % (text[:200], ref["raw"][:200]))
@@ -255,7 +259,7 @@ def check_chunking(rep, progs, files, impl, stats, schedules):
             if kind == "w":
                 rep.violation("c16-chunking-changes-result", "writer program gives a different %s with chunk schedule [%s]: %s vs %s [%s]" %
                               ("file" if val[0] == base[(kind, i)][0] else "result", c, str(val)[:120], str(base[(kind, i)])[:120], crash.prog_text(progs[i])[:80]),
-                              dict(kind="chunk-writer", items=[crash.item_tok(x) for x in progs[i]["items"]], nofin=bool(progs[i].get("nofin")), chunks=c))
+                              dict(kind="chunk-writer", items=[crash.item_tok(x) for x in progs[i]["items"]], nofin=bool(progs[i].get("nofin")), finx=bool(progs[i].get("finx")), chunks=c))
             else:
                 rep.violation("c16-chunking-changes-result", "%s gives a different result with chunk schedule [%s]: %s vs %s" % (kind, c, val[-150:], base[(kind, i)][-150:]),
                               dict(kind="chunk-reader", case_kind=kind, file_items=files[i]["items"], file_index=i, chunks=c))
@@ -307,7 +311,7 @@ def run(rep, tier, rng, replay=None):
     if replay:
         k = replay.get("kind")
         if k in ("fault-writer", "chunk-writer"):
-            prog = dict(items=[crash.parse_item(t) for t in replay["items"]], nofin=replay.get("nofin", False))
+            prog = dict(items=[crash.parse_item(t) for t in replay["items"]], nofin=replay.get("nofin", False), finx=replay.get("finx", False))
             if k == "fault-writer":
                 check_writer(rep, prog, impl, stats, chunks=replay.get("chunks", "-"), with_model=replay.get("chunks", "-") == "-", only_k=replay.get("fault"))
             else:
